@@ -312,6 +312,9 @@ impl NaiveDate {
     /// ```
     #[must_use]
     pub const fn from_isoywd_opt(year: i32, week: u32, weekday: Weekday) -> Option<NaiveDate> {
+        if year < MIN_YEAR - 1 || year > MAX_YEAR + 1 {
+            return None; // Out-of-range, also prevents overflow of `year - 1` and `year + 1`
+        }
         let flags = YearFlags::from_year(year);
         let nweeks = flags.nisoweeks();
         if week == 0 || week > nweeks {
